@@ -1,4 +1,6 @@
-"""C11 — error aggregation and wrapping: Lean heap model `Errs.append/wrap/…` (Model/Errs.lean), theorems Props/C11.lean."""
+"""C11 — error aggregation and wrapping: Lean heap model `Errs.append/wrap/…` (Model/Errs.lean), rendering with stack tokens
+(Model/ErrsFmt.lean), the text of StackTrace over real frames (Model/ErrsTrace.lean), errors.Is/As, Recovery and the Log*
+record (Model/ErrsWalk.lean); theorems Props/C11.lean."""
 
 
 def _tag(line, out):
@@ -14,24 +16,56 @@ def _tag(line, out):
     return w[2]
 
 
+def _tag_trace(line, out):
+    w = line.split()
+    if len(w) < 7:
+        return None
+    depth = max((int(x.split(":")[2]) for x in w[6:] if x.count(":") == 5), default=0)
+    return "trace:%s:%s:%s" % ("trim" if w[1] == "1" else "full", "default-prefixes" if w[2].count(",") == 2 else "other-prefixes",
+                              "deep" if w[4][1:].isdigit() and depth >= int(w[4][1:]) - 17 else "shallow")
+
+
 def run(ctx):
     ctx.extra["level_note"] = (
         "proof: Append (content with and without aliasing, nil-iff, write log, frame, arguments unchanged, chains of Appends, "
-        "heap invariant for every API-built heap incl. WrappedErrors elements), Count, WrappedErrors, Message/%s of single "
-        "errors and aggregates, the Caused-by structure of %v/%+v, and the recorded stack as an abstract token (captured by "
-        "the creating function, never changed afterwards, kept by copies, listed along Append results); wrap_nil / "
-        "wrapTyped_nil / wrap_idempotent / error_or_nil / capture_records_creator / copy_keeps_stack / caused_by_structure "
-        "are unfoldings of the transcription (they carry the transcription, which the correspondence run ties to the code). "
-        "append_args_unchanged covers EVERY argument (since fix f2f6175 a nil err copies its first argument too). "
-        "Implementation-only: frames below the creating function, file:line text, errors.Is/As, "
-        "Unwrap() []error, Recovery, slog. Not covered by the Append theorems: heaps after CloneWithPrefixMessage of an "
-        "aggregate (shared tails; correspondence only).")
+        "heap invariant for every API-built heap incl. WrappedErrors elements; CONTRAST: without the cursor walk errors are "
+        "lost, without the copy an argument grows), Count, WrappedErrors, Message/%s of single errors and aggregates; the "
+        "recorded stack as an abstract token (captured by the creating function, never changed, kept by copies, listed along "
+        "Append results); the TEXT of StackTrace/Detail over real frames: the frame loop = one line per shown frame joined by "
+        "newlines (frames_text_spec), the trimmed trace starts with the creating function's frame (trace_names_creator; "
+        "CONTRAST untrimmed_starts_in_library), every shown frame is listed, the shown file name is a suffix of the path and "
+        "at least the base name (frame_file_shown), cause links point to older cells in every API-built heap incl. clones "
+        "(built_causeWF) so the fuel never runs out (render_fuel_irrelevant) and a Detail ends with the WHOLE Detail of its "
+        "*Error cause (detail_renders_cause, fmtV_renders_cause); errors.Is/As through Wrap/WrapTyped/NewWithCause reach the "
+        "cause (wrap_is_reaches_cause, as_finds_error); Recovery hands the handler one new error caused by the panic value "
+        "(recovery_hands_cause, recovery_string); the Log* record (log_record_spec). wrap_nil / wrapTyped_nil / "
+        "wrap_idempotent / error_or_nil / capture_records_creator / copy_keeps_stack / caused_by_structure / "
+        "detail_foreign_or_no_cause / log_record_spec are unfoldings of the transcription (they carry the transcription, "
+        "which the correspondence run ties to the code). Correspondence only: heaps after CloneWithPrefixMessage of an "
+        "aggregate (outside WF); which frames runtime.Callers reports (input of the trace model, taken by the harness on the "
+        "source line of the constructor; for an error made inside Recovery also runtime.gopanic, read from the recorded "
+        "stack). Implementation-only (oracle `fmt`): fmt.Sprintf of Newf formats, errors.Is/As through Unwrap() []error "
+        "and As methods, Recovery with non-error non-string panic values, slog levels/contexts/extra attributes, "
+        "stackValue.LogValue.")
     ctx.modelled += [
-        "a recorded stack is modelled as a token (creating function + serial of the capture) beside the heap; on every "
-        "`render` line the harness replaces the frame blocks of the real %v and %+v by the token it derives from the frames "
-        "and compares %s, %q (printable ASCII messages) and %v/%+v with the model; frames below the creator, errors.Is/As, "
-        "Recovery and the slog glue are checked on the implementation only (oracle area `fmt`)",
-        "pointer identity of foreign errors is modelled by a creation counter",
+        "a recorded stack is modelled twice: (errs) as a token (creating function + serial of the capture) beside the heap - "
+        "on every `render` line the harness replaces the frame blocks of the real %v and %+v by the token it derives from the "
+        "frames and compares %s, %q (printable ASCII messages) and %v/%+v with the model; (trace) as the list of real frames "
+        "(function, file, line) that the harness takes itself with runtime.Callers on the source line of the constructor "
+        "call - the model computes the WHOLE text of Detail(trim) from them (frame loop, filter incl. the main.main / "
+        "_testmain.go rule, RuntimePrefixesToFilter sets, file shortening over 21 //line-directive file shapes, callStack's "
+        "buffer, Caused-by recursion) and it must equal the library's %v / %+v / Error() byte for byte",
+        "area trace also panics under errs.Recovery (ctor `recover`): the recorded stack is errs.Recovery, runtime.gopanic and "
+        "the stack of the panicking function, and the whole text is compared; the default prefix set of the area is read from "
+        "the variable errs.RuntimePrefixesToFilter at start-up",
+        "measured, not copied: the size of callStack's buffer (an error created 20000 frames deep) and the message of "
+        "Recovery's errors (one real panic) are read off the running code by the harness on every run and written into the "
+        "lines; the model is parametric in both",
+        "errors.Is / errors.As (ops `is`, `as`), errs.Recovery under a real panic with error / string / no panic / nil handler / "
+        "panicking handler (op `recover`) and the ten errs.Log* entry points against a capturing slog handler (op `log`) are "
+        "answered by the model (Model/ErrsWalk.lean); errors.Is on a foreign wrapper around a nil *Error panics inside "
+        "(*Error).Unwrap - the model predicts that outcome too",
+        "pointer identity of foreign errors is modelled by a creation counter; comparability of their dynamic type by their kind",
     ]
     ctx.assumptions += [
         "the Append theorems assume a well-formed heap (WF: links point forward, stay inside the heap, never reach an "
@@ -65,6 +99,12 @@ def run(ctx):
         "2 size thresholds": "aggregates of 12, 16/17, 32/33, 64/65, 100, 128/129, 256/257, 1000, 1024 elements in the "
                              "stateful stream (big histories, doubling through aliasing and +1) and in the oracle; call "
                              "stacks of depth 0..3000 around the 512-frame buffer; cause chains of depth 1..50",
+        "3 entry points (model)": "answered by the Lean model in the stateful area: Append Count Message WrappedErrors ErrorOrNil "
+                                  "Wrap WrapTyped New Newf NewWithCause NewWithCausef Unwrap CloneWithPrefixMessage "
+                                  "Format(%s %q %v %+v) Error Detail StackTrace (token level), errors.Is, errors.As, Recovery, "
+                                  "Log LogContext LogTo LogContextTo LogWithLevel LogAttrs LogAttrsContext LogAttrsTo "
+                                  "LogAttrsContextTo LogAttrsWithLevel (record message + StackError); area trace: Detail / "
+                                  "StackTrace / Error / %v / %+v / RuntimePrefixesToFilter / RawStackTrace over real frames",
         "3 entry points": "errors.go: CloneWithPrefixMessage Wrap WrapTyped New Newf NewWithCause NewWithCausef Append Count "
                           "Message Error Detail StackTrace RawStackTrace ErrorOrNil WrappedErrors Unwrap Format(%s %q %v %+v) "
                           "LogValue RuntimePrefixesToFilter; recovery.go: Recovery; log.go: Log LogContext LogTo LogContextTo "
@@ -99,6 +139,13 @@ def run(ctx):
              theorem="C11.append_items / append_items_alias / append_nil_iff / append_args_unchanged / count_eq / "
                      "wrapped_errors_eq / wrap_* (model = spec); impl != model on this history (every variable is "
                      "re-observed after every call)")
+    # the WHOLE text of Detail(trim) = %v / %+v over real frames: frame loop, filter, file shortening, 512-entry buffer and
+    # the Caused-by recursion (Model/ErrsTrace.lean) against the library; the frames are taken by the harness with
+    # runtime.Callers on the source line of every constructor call
+    ctx.diff(area="trace", driver="drv_c11", n={"quick": 4000, "thorough": 60000}, stateful=False, timeout=240,
+             trivial=lambda l, o: not o.startswith("D:"), tagger=_tag_trace,
+             theorem="C11.frames_text_spec / trace_names_creator / detail_shape (model = spec); the text of Detail(trim) "
+                     "differs from the model's transcription of StackTrace on the frames runtime.Callers reports")
     ctx.impl_oracle("fmt", {"quick": 2500, "thorough": 40000},
                     label="fmt verbs, whole stack trace against runtime.Callers at the creation site, errors.Is/As/Unwrap "
                           "through every constructor, ErrorOrNil, Recovery with every panic value kind, every errs/log.go "
